@@ -23,7 +23,7 @@ class Scn:
         for b in self.beh:
             out.append("B %s %s %s" % b)
         for d, i, body, wl in self.exp:
-            out.append("X %s %d %s%s" % (d, i, body.hex(), "" if wl is None else " %d" % wl))
+            out.append("X %s %d %s%s" % (d, i, body.hex() or "-", "" if wl is None else " %d" % wl))
         for k, v in self.arr:
             if k in (">", "<"):
                 if v:
@@ -285,7 +285,7 @@ def run_rec(ctx, exe, scns, tag, nshards=None, timeout=900):
                 # scenario (nothing of it was written), open it here
                 last_reset = subprocess.run("tac %s | grep -a -m1 '\"e\":\"Reset\"'" % tf, shell=True, capture_output=True, text=True).stdout
                 if ('"run":"%s"' % shards[i][bad].name) not in last_reset:
-                    out.write(json.dumps({"e": "Reset", "run": shards[i][bad].name, "p": 1, "cfg": {"autod": False, "maxtx": 0, "hard": 18000, "mode": "proto", "wf": False, "ids": False, "pumpdir": "none", "pumpstart": 0, "role": "", "idx": 0, "fam": "", "n": -1, "pers": 0, "failat": -1, "cls": "crash"}}) + "\n")
+                    out.write(json.dumps({"e": "Reset", "run": shards[i][bad].name, "p": 1, "cfg": {"autod": False, "maxtx": 0, "hard": 18000, "mode": "proto", "wf": False, "ids": False, "pumpdir": "none", "pumpstart": 0, "role": "", "idx": 0, "fam": "", "bomb": 1048576, "n": -1, "pers": 0, "failat": -1, "cls": "crash"}}) + "\n")
                 out.write(json.dumps({"e": "End", "live": 0, "san": True, "what": what + " @ " + ">".join(fr), "stall": False, "leftq": 0, "lefts": 0, "closed": False, "ntx": 0, "nser": 0, "ncb": 0, "allocs": 0, "failfn": ""}) + "\n")
                 out.flush()
                 first = bad + 1
